@@ -291,6 +291,33 @@ Proof.
 Qed.
 End Proofs.
 
+Scheme term_mut := Induction for term Sort Prop
+  with args_mut := Induction for args Sort Prop.
+Combined Scheme term_args_ind from term_mut, args_mut.
+
+Lemma subst_pfree sg :
+  (forall t, pfree t -> subst sg t = t) /\ (forall a, pfreea a -> substa sg a = a).
+Proof.
+  apply term_args_ind.
+  - reflexivity.
+  - intros s r IH H. change (subst sg (TSym s r)) with (TSym s (subst sg r)). now rewrite IH.
+  - intros n r IH H. change (subst sg (TId n r)) with (TId n (subst sg r)). now rewrite IH.
+  - intros i r IH H. destruct H.
+  - intros n a IHa r IHr [Ha Hr]. change (subst sg (TCall n a r)) with (TCall n (substa sg a) (subst sg r)).
+    now rewrite IHa, IHr.
+  - reflexivity.
+  - intros t IHt a IHa [Ht Ha]. change (substa sg (ACons t a)) with (ACons (subst sg t) (substa sg a)).
+    now rewrite IHt, IHa.
+Qed.
+
+Theorem expand_total_cbn_file tb rank bound t :
+  nonrec tb rank -> okt tb rank bound t -> pfree t ->
+  exists o, exp tb (S (enough tb [] (tsize t))) [] [] t = Some o /\ CBN tb t o.
+Proof.
+  intros NR OK PF. destruct (expand_total_call_by_name tb rank NR bound t OK) as [o [E C]].
+  exists o. split; [exact E|]. now rewrite (proj1 (subst_pfree ANil) t PF) in C.
+Qed.
+
 (* the hypotheses are inhabited:  #define G(x) x + x   /   #define F(y) G(y) ;   F(G(1)) *)
 Definition nG : str := [71%N]. Definition nF : str := [70%N].
 Definition tb_ex : table :=
